@@ -1181,6 +1181,10 @@ impl Blockchain {
                 match result {
                     WindingResult::Wind(current_wind_index, wind_failure, wallet_status) => {
                         wallet_update_status |= wallet_status;
+                        if wind_failure {
+                            // the new chain did not validate and there is no old chain to restore
+                            return (false, wallet_update_status);
+                        }
 
                         result = self
                             .wind_chain(
@@ -1218,7 +1222,8 @@ impl Blockchain {
                 }
             }
         } else if !new_chain.is_empty() {
-            let mut result = WindingResult::Unwind(0, true, old_chain.to_vec(), WALLET_NOT_UPDATED);
+            let mut result =
+                WindingResult::Unwind(0, false, old_chain.to_vec(), WALLET_NOT_UPDATED);
             loop {
                 #[cfg(saito_verif)]
                 if verif_wind_step_exceeded() {
@@ -1227,6 +1232,26 @@ impl Blockchain {
                 match result {
                     WindingResult::Wind(current_wind_index, wind_failure, wallet_status) => {
                         wallet_update_status |= wallet_status;
+                        if wind_failure {
+                            // the new chain did not validate and whatever part of it had been wound
+                            // has been unwound again: wind the old (known good) chain back on,
+                            // oldest block first, and report the failure.
+                            let mut index = old_chain.len();
+                            while index > 0 {
+                                index -= 1;
+                                match self
+                                    .wind_chain(old_chain, &[], index, false, storage, configs)
+                                    .await
+                                {
+                                    WindingResult::Wind(_, false, status)
+                                    | WindingResult::FinishWithSuccess(status) => {
+                                        wallet_update_status |= status;
+                                    }
+                                    _ => break,
+                                }
+                            }
+                            return (false, wallet_update_status);
+                        }
                         result = self
                             .wind_chain(
                                 new_chain,
